@@ -657,3 +657,59 @@ add("b19", ["C16"], [(P, "        changes = False\n        for job in self.jobs:
                      (P, "                changes = (not job.sanitize(verbose)) or changes", "                fine = job.sanitize(verbose) and fine"),
                      (P, "        return not changes\n", "        return fine\n")], expect='silent')
 add("b19b", ["C16"], (P, "            job.required &= self.jobs\n", "            job.required = job.required & self.jobs\n"), expect='silent')
+
+# ------------------------------------------------------------------ C17
+add("m17a", ["C17"], [(P, '        return self._neighbours("required", *starts)', '        return self._neighbours("_s_successors", *starts)'),
+                      (P, '        yield from self._neighbours("_s_successors", *starts)', '        yield from self._neighbours("required", *starts)')],
+    rules=["R17.1"])
+add("m17b", ["C17"], (P, """        if compute_backlinks:
+            self._backlinks()
+        return self._neighbours_closure("_s_successors", *starts)""", """        return self._neighbours_closure("_s_successors", *starts)"""),
+    rules=["R17.2"])
+add("m17b2", ["C17"], (P, "    def successors_downstream(self, *starts: AbstractJob, compute_backlinks=True)",
+                       "    def successors_downstream(self, *starts: AbstractJob, compute_backlinks=False)"), rules=["R17.2"])
+add("m17c", ["C17"], (P, """            if not changes:
+                break
+        return closure""", """            break
+        return closure"""), rules=["R17.4"])
+add("m17d", ["C17"], (P, "        closure = set(self._neighbours(attname, *starts))", "        closure = set(starts)"), rules=["R17.4"])
+add("m17e", ["C17"], (P, """                if next not in neighbours:
+                    neighbours.add(next)
+        return neighbours""", """                if next not in neighbours:
+                    neighbours.add(next)
+            return neighbours
+        return neighbours"""), rules=["R17.3"])
+add("m17f", ["C17"], (P, """            if discard_forever and job.forever:
+                continue
+""", ""), rules=["R17.5"])
+add("m17g", ["C17"], (S, """        for job in self.jobs:
+            yield from job._iterate_jobs(
+                scan_schedulers=scan_schedulers)""", """        for job in self.jobs:
+            yield job"""), rules=["R17.6"])
+add("m17h", ["C17"], (P, """                # just in case
+                if next not in self.jobs:
+                    continue
+""", ""), rules=["R17.3"])
+add("m17i", ["C17"], (P, """                    if next not in closure:
+                        closure.add(next)
+                        changes += 1""", """                    if next not in closure:
+                        closure.add(next)"""), rules=["R17.4"])
+add("m17j", ["C17"], (P, """        for job in self.jobs:
+            if not job.required:
+                yield job""", """        for job in self.jobs:
+            if not job.required and not job.forever:
+                yield job"""), rules=["R17.5"])
+add("m17k", ["C17"], (P, "            if not job._s_successors:                   # pylint: disable=w0212", "            if not job.required:                   # pylint: disable=w0212"),
+    rules=["R17.5"])
+add("m17l", ["C17"], (P, '        return self._neighbours_closure("required", *starts)', '        return self._neighbours("required", *starts)'),
+    rules=["R17.1"])
+add("m17m", ["C17"], (P, "                for next in self._neighbours(attname, start):", "                for next in self._neighbours('required', start):"),
+    rules=["R17.1"])
+add("m17n", ["C17"], (S, """        if scan_schedulers:
+            yield self
+        for job in self.jobs:
+            yield from job._iterate_jobs(""", """        yield self
+        for job in self.jobs:
+            yield from job._iterate_jobs("""), rules=["R17.6"])
+add("b17a", ["C17"], (P, """                if next not in neighbours:
+                    neighbours.add(next)""", """                neighbours.add(next)"""), expect='silent')
